@@ -367,35 +367,8 @@ func (s *EtcdStore) UpdateTopicConfig(ctx context.Context, cfg *metadatapb.Topic
 
 // CreatePartitions expands a topic and writes new partition state entries.
 func (s *EtcdStore) CreatePartitions(ctx context.Context, topic string, partitionCount int32) error {
-	meta, err := s.metadata.Metadata(ctx, []string{topic})
+	newPartitions, err := s.growTopic(ctx, topic, partitionCount)
 	if err != nil {
-		return err
-	}
-	if len(meta.Topics) == 0 || meta.Topics[0].ErrorCode != 0 {
-		return ErrUnknownTopic
-	}
-	current := int32(len(meta.Topics[0].Partitions))
-	if partitionCount <= current {
-		return ErrInvalidTopic
-	}
-	if err := s.metadata.CreatePartitions(ctx, topic, partitionCount); err != nil {
-		return err
-	}
-	// Read new partition metadata before persisting. The snapshot watcher can
-	// refresh in-memory state from etcd while persistSnapshot runs, so a later
-	// Metadata call may see a stale partition count and panic on index access.
-	updated, err := s.metadata.Metadata(ctx, []string{topic})
-	if err != nil {
-		return err
-	}
-	if len(updated.Topics) == 0 || updated.Topics[0].ErrorCode != 0 {
-		return ErrUnknownTopic
-	}
-	newPartitions := updated.Topics[0].Partitions[current:partitionCount]
-	if int32(len(newPartitions)) != partitionCount-current {
-		return fmt.Errorf("metadata: expected %d new partitions, got %d", partitionCount-current, len(newPartitions))
-	}
-	if err := s.persistSnapshot(ctx); err != nil {
 		return err
 	}
 	for _, part := range newPartitions {
@@ -423,6 +396,45 @@ func (s *EtcdStore) CreatePartitions(ctx context.Context, topic string, partitio
 		s.recordEtcdResult(nil)
 	}
 	return nil
+}
+
+// growTopic adds the partitions to the local snapshot and persists it. persistMu is
+// held from the local mutation until the snapshot is written: the snapshot watcher
+// replaces the whole in-memory state on refresh, and a refresh in between would
+// silently drop the new partitions from both the local copy and the persisted one.
+func (s *EtcdStore) growTopic(ctx context.Context, topic string, partitionCount int32) ([]protocol.MetadataPartition, error) {
+	s.persistMu.Lock()
+	defer s.persistMu.Unlock()
+
+	meta, err := s.metadata.Metadata(ctx, []string{topic})
+	if err != nil {
+		return nil, err
+	}
+	if len(meta.Topics) == 0 || meta.Topics[0].ErrorCode != 0 {
+		return nil, ErrUnknownTopic
+	}
+	current := int32(len(meta.Topics[0].Partitions))
+	if partitionCount <= current {
+		return nil, ErrInvalidTopic
+	}
+	if err := s.metadata.CreatePartitions(ctx, topic, partitionCount); err != nil {
+		return nil, err
+	}
+	updated, err := s.metadata.Metadata(ctx, []string{topic})
+	if err != nil {
+		return nil, err
+	}
+	if len(updated.Topics) == 0 || updated.Topics[0].ErrorCode != 0 {
+		return nil, ErrUnknownTopic
+	}
+	newPartitions := updated.Topics[0].Partitions[current:partitionCount]
+	if int32(len(newPartitions)) != partitionCount-current {
+		return nil, fmt.Errorf("metadata: expected %d new partitions, got %d", partitionCount-current, len(newPartitions))
+	}
+	if err := s.persistSnapshotLocked(ctx); err != nil {
+		return nil, err
+	}
+	return newPartitions, nil
 }
 
 // CreateTopic currently updates only the in-memory snapshot; the operator is still responsible
@@ -550,12 +562,6 @@ func (s *EtcdStore) refreshSnapshot(ctx context.Context) error {
 
 func snapshotKey() string {
 	return "/kafscale/metadata/snapshot"
-}
-
-func (s *EtcdStore) persistSnapshot(ctx context.Context) error {
-	s.persistMu.Lock()
-	defer s.persistMu.Unlock()
-	return s.persistSnapshotLocked(ctx)
 }
 
 func (s *EtcdStore) persistSnapshotLocked(ctx context.Context) error {
